@@ -1,11 +1,12 @@
 """C02 - an edited tree is observationally identical to a fresh parse of its own source."""
 from pyvc import native
 from pyvc.contract import verify_all
-from contracts import k_cache, k_links, k_offset
+from contracts import k_cache, k_links, k_offset, k_view
 
 
 def run(rep, tier, seed):
-    verify_all(rep, k_cache.specs('C02') + k_links.specs('C02') + k_offset.specs_flush('C02'))
+    # views are live windows: after an edit made through a view its bounds must describe the same window a fresh view would
+    verify_all(rep, k_cache.specs('C02') + k_links.specs('C02') + k_offset.specs_flush('C02') + k_view.specs('C02'))
     k_cache.flush_structural(rep, 'C02')
     rep.trusted.append('b2c / c2b of source lines are uninterpreted here (their contracts are proved under C06)')
     rep.remainder = ('flush-on-write of every position-writing site, the work lists of _make_fst_tree / _unmake_fst_tree / '
